@@ -114,3 +114,17 @@ Definition nontrivial_fwin (l : list float) : bool :=
   match l with
   | off :: len :: _ => match f2me off with Some me => negb (me_is_int me) | None => false end
   | _ => false end.
+
+(* [k; observed overlap_for_kernel k] and [model; kh; kw; accepted by validate_kernel_shape] *)
+Definition check_overlap (l : list float) : bool :=
+  match l with
+  | k :: o :: _ => overlap_for_kernel (f2z k) =? f2z o
+  | _ => false end.
+Definition nontrivial_overlap (l : list float) : bool := match l with k :: _ => 1 <? f2z k | _ => false end.
+Definition check_kshape (l : list float) : bool :=
+  match l with
+  | m :: kh :: kw :: acc :: _ =>
+    let md := match f2z m with 0 => MGain | 1 => MGainBlkOffset | _ => MGainOffset end in
+    Bool.eqb (validate_kernel_shape md (f2z kh) (f2z kw)) (f2z acc =? 1)
+  | _ => false end.
+Definition nontrivial_kshape (l : list float) : bool := match l with _ :: kh :: kw :: _ => negb (f2z kh =? f2z kw) | _ => false end.
